@@ -15,6 +15,8 @@ func init() {
 	vfRegister("VfC04_doModify", VfC04_doModify)
 	vfRegister("VfC08_flushDecision", VfC08_flushDecision)
 	vfRegister("VfC04_history2", VfC04_history2)
+	vfRegister("VfC05_runElection3", VfC05_runElection3)
+	vfRegister("VfC04_doModify3", VfC04_doModify3)
 	vfRegister("VfC04_history3", VfC04_history3)
 }
 
@@ -22,8 +24,10 @@ func eq128(aH, aL, bH, bL uint64) bool { return vfAnd(aH == bH, aL == bL) }
 
 // vfSessions builds a symbolic session table: sessions "A" and "B" may exist,
 // with arbitrary negotiated parameters and an arbitrary (or no) announced id.
-func vfSessions(s *Server) {
-	for _, id := range []string{"A", "B"} {
+func vfSessions(s *Server) { vfSessionsN(s, []string{"A", "B"}) }
+
+func vfSessionsN(s *Server, names []string) {
+	for _, id := range names {
 		if vfBool(id + ".exists") {
 			cs := &clientState{params: &clientParams{
 				ExpectElecID: vfBool(id + ".single-primary"),
@@ -54,9 +58,12 @@ func vfElection(s *Server) (has bool, h, l uint64, master string) {
 }
 
 // VfC05_runElection: one announcement from an arbitrary server state.
-func VfC05_runElection() {
+func VfC05_runElection()  { vfC05RunElection([]string{"A", "B"}) }
+func VfC05_runElection3() { vfC05RunElection([]string{"A", "B", "C"}) }
+
+func vfC05RunElection(names []string) {
 	s := &Server{cs: map[string]*clientState{}}
-	vfSessions(s)
+	vfSessionsN(s, names)
 	has, curH, curL, oldMaster := vfElection(s)
 	x := vfStr("x")
 	eH, eL := vfU64("e.hi"), vfU64("e.lo")
@@ -138,14 +145,17 @@ func vfNHInstalled(r *rib.RIB, ni string, idx uint64) bool {
 // VfC04_doModify: a batch of 1-2 next-hop ADDs arriving on an arbitrary session
 // in an arbitrary election state; only the primary's correctly stamped
 // operations may reach the RIB.
-func VfC04_doModify() {
+func VfC04_doModify()  { vfC04DoModify([]string{"A", "B"}, 2) }
+func VfC04_doModify3() { vfC04DoModify([]string{"A", "B", "C"}, 3) }
+
+func vfC04DoModify(names []string, maxBatch int) {
 	s := &Server{cs: map[string]*clientState{}, masterRIB: rib.New(DefaultNetworkInstanceName)}
-	vfSessions(s)
+	vfSessionsN(s, names)
 	has, curH, curL, master := vfElection(s)
 	cid := vfStr("cid")
 	cs, known := s.cs[cid]
 
-	n := vfInt("batch", 1, 2)
+	n := vfInt("batch", 1, maxBatch)
 	type opd struct {
 		id       uint64
 		idx      uint64
